@@ -94,6 +94,32 @@ check("C13", "sched", "model_checking",
       "Pre-emption bound; select against select is not generated; the data-race clause is decided by happens-before detection on the executions of the free-running pass, not by enumeration; memory orderings below sequential consistency are not modelled.",
       "stateless model checking of the implementation: DFS over schedules with iterative context bounding under a controlled scheduler, shadow channel model as oracle; complementary -race pass", "DESIGN.md §4 C13")
 
+# parts added after the original texts were written (DESIGN.md §10.6-10.7)
+ADDED = {
+ "C01": "Also: eleven call/index/metamethod/closure/loop families once more behind 300 constants (K operands beyond 255), the closure and block-nesting families of C03, goto/label placements judged by the label rules, fractional and constant-prefix keys, white-box residue event after every run.",
+ "C02": "Also: every call program once more on objects with protected metatables, the Go-API coroutine part, optional- and surplus-argument spellings, cost of an error after 10^6 tail calls (allocated bytes, failing minus returning).",
+ "C03": "Also: the families under growing-registry configurations, optional-argument spellings of getfenv/setfenv, white-box residue event.",
+ "C04": "Also: all six families once more with __metatable set in every installed metatable; re-entrancy terms (every callback-taking operation nested in every other one, differential oracle); replaced string __index.",
+ "C05": "Also: histories of handled errors followed by a provoked call-stack overflow compared with a fresh state; re-entrancy terms; Go-side Resume as a protected entry point.",
+ "C06": "Also: program families of C01-C03 as coroutine bodies suspending after every event; yields across 14 boundary kinds; Go functions as bodies; creation chains; Go-API pinned histories (Resume on wrapped / created threads); re-entrancy terms.",
+ "C07": "Also: family 'limits' (label ids, value counts of CALL/VARARG, CLOSURE prototype numbers at their overflow points), declared-only locals, compat arg slot, constructors as operands.",
+ "C08": "Also: reader answers (every cut of 26 sources into short reads; a failing reader at every position, alone or with data), invalid goto/label placements, block-boundary layouts, load() re-entrancy.",
+ "C09": "Also: narrow-deep phase (depth 8/12), creation roots, bulk tables with clear-during-traversal, bounded traversal drivers.",
+ "C10": "Also: the complete __index/__newindex chain product with every access made through GetField/SetField/GetTable/SetTable and judged against the reference interpreter; pseudo-indices and environments; Go nil after Insert above the top.",
+ "C11": "Also: families with a live context (yield across boundaries, creation chains); coroutines that predate SetContext (context-free prelude before every run).",
+ "C12": "Also: F-opgrow (30 operations that run Lua code inside one instruction x which invocation reallocates the registry), real growth configurations (registry cut back before every program), coroutine nesting (canaries in child processes + depth sweep 1..260), overflow histories.",
+ "C13": "Also: pool histories (every history of <= 4/5 operations over two MinimizeStackMemory states, in child processes), seeded-random scenario under the scheduler, syntax-tree immutability of Compile, objects reachable from Lua in two states must be distinct, shared-prototype families with complete prototype dumps.",
+ "C14": "Also: re-entrancy terms, optional- and surplus-argument spellings, UTF-8 block, pinned cases of repaired defects.",
+ "C15": "Also: optional- and surplus-argument spellings; pinned cases (format errors, extreme positions).",
+ "C16": "Also: Unicode-space numerals, optional-argument spellings (tonumber, os.date, os.difftime), pinned cases.",
+ "C17": "Also: F-nestlocals and F-firstblock (scope records in every block nesting and at function start), shebang files, CR/LF at read-block boundaries, optional-argument spellings of error/traceback/getinfo.",
+ "C18": "Also: lists of 1..20000 elements, lists holding false, explicit-nil arguments, re-entrancy terms (sort inside comparators).",
+ "C19": "Also: setvbuf over pending bytes and read-flush-write inside the BFS (state key records what separated the last reads from now), mode and read-format spellings (differential), optional-argument spellings, io.lines re-entrancy.",
+ "C20": "Also: histories that alternate Lua steps and Go-API steps (PreloadModule, RegisterModule, replaced package.preload/path/loaders, search-phase failures then repaired).",
+}
+for pid, extra in ADDED.items():
+    C[pid]["text"] = C[pid]["text"].rstrip() + " " + extra
+
 engines = [
  {"name":"histbfs","path":"internal/props (c09.go, c18.go, ...)","kind_free_text":"explicit-state BFS over operation histories; successor = replay on a fresh real object + 1 operation; state key = reference model + white-box layout"},
  {"name":"luaref+gen+glrun","path":"internal/luaref, internal/glrun, internal/props/progrun.go","kind_free_text":"bounded-exhaustive program generators, reference Lua 5.1 interpreter, trace comparison with gopher-lua"},
